@@ -4,13 +4,17 @@ import (
 	"bytes"
 	"context"
 	"encoding/hex"
+	"encoding/json"
 	"fmt"
 	"io"
 	"os"
 	"strings"
 
 	sdkclient "github.com/cosmos/cosmos-sdk/client"
+	sdkhd "github.com/cosmos/cosmos-sdk/crypto/hd"
 	"github.com/cosmos/cosmos-sdk/crypto/keyring"
+	sdk "github.com/cosmos/cosmos-sdk/types"
+	bip39 "github.com/cosmos/go-bip39"
 	"github.com/spf13/cobra"
 
 	"github.com/EscanBE/evermint/v12/app/params"
@@ -89,6 +93,96 @@ func runCLIKeyRoundTrip(run *vh.Run, enc params.EncodingConfig) {
 		run.Count("enc.roundtrip-ok:cli-export-import", 1)
 		run.Count("cli_key_round_trips:"+shape, 1)
 		run.Nontrivial("enc|cli-export-import|" + shape)
+	}
+}
+
+// runCLIKeysAdd: `keys add <name> --interactive --dry-run` with a mnemonic and a BIP-39 passphrase typed on stdin (what a
+// user recovering a wallet does), --account / --index chosen: the address it prints is the one of the key the reference
+// derivation (cosmos-sdk crypto/hd, checked against the published vectors) gives for m/44'/60'/account'/0/index.
+func runCLIKeysAdd(run *vh.Run, enc params.EncodingConfig) {
+	if run.OnlyCase != "" && !strings.HasPrefix(run.OnlyCase, "cli-add/") {
+		return
+	}
+	n := run.N(40, 600)
+	for i := 0; i < n; i++ {
+		label := fmt.Sprintf("cli-add/%d", i)
+		if !run.WantCase(label) {
+			continue
+		}
+		r := run.RNG("cli-add", i)
+		mnemonic, _ := genMnemonic(r)
+		pass, passKind := genPassphrase(r)
+		if i%3 == 0 {
+			pass, passKind = "", "empty"
+		}
+		// typed on a terminal line: no line breaks or tabs, no surrounding blanks (the prompt trims them)
+		if strings.ContainsAny(pass, "\n\r\t") || strings.TrimSpace(pass) != pass {
+			pass, passKind = "TREZOR", "ascii"
+		}
+		account, index := uint32(0), uint32(0)
+		if i%2 == 1 {
+			account, index = uint32(r.Intn(5)), uint32(r.Intn(50))
+		}
+		path := fmt.Sprintf("m/44'/60'/%d'/0/%d", account, index)
+		run.Eval(1)
+		wit := func(extra map[string]any) map[string]any {
+			m := map[string]any{"mnemonic": mnemonic, "bip39_passphrase": pass, "passphrase_kind": passKind, "path": path}
+			for k, v := range extra {
+				m[k] = v
+			}
+			return m
+		}
+		seed := bip39.NewSeed(mnemonic, pass)
+		master, cc := sdkhd.ComputeMastersFromSeed(seed)
+		ref, err := sdkhd.DerivePrivateKeyForPath(master, cc, path)
+		if err != nil {
+			continue
+		}
+		want := sdk.AccAddress((&ethsecp256k1.PrivKey{Key: ref}).PubKey().Address()).String()
+		answers := mnemonic + "\n" + pass + "\n"
+		if pass != "" {
+			answers += pass + "\n"
+		}
+		home, _ := os.MkdirTemp(os.Getenv("VERIF_SCRATCH"), "keys-add-")
+		cctx := sdkclient.Context{}.WithCodec(enc.Codec).WithInterfaceRegistry(enc.InterfaceRegistry).WithTxConfig(enc.TxConfig).WithLegacyAmino(enc.Amino).
+			WithHomeDir(home).WithKeyringDir(home).WithChainID(vh.ChainID).WithInput(strings.NewReader(answers))
+		ctx := context.WithValue(context.Background(), sdkclient.ClientContextKey, &cctx)
+		cmd := evclient.KeyCommands(home)
+		var stdout, stderr bytes.Buffer
+		cmd.SetOut(&stdout)
+		cmd.SetErr(&stderr)
+		cmd.SilenceUsage, cmd.SilenceErrors = true, true
+		cmd.SetArgs([]string{"add", "k", "--interactive", "--dry-run", "--coin-type", "60", "--account", fmt.Sprint(account), "--index", fmt.Sprint(index),
+			"--keyring-backend", "test", "--output", "json", "--home", home})
+		var cerr error
+		func() {
+			defer func() {
+				if p := recover(); p != nil {
+					cerr = fmt.Errorf("panic: %v", p)
+				}
+			}()
+			cerr = cmd.ExecuteContext(ctx)
+		}()
+		_ = os.RemoveAll(home)
+		if cerr != nil {
+			viol(run, "hd-derive-mismatch:keys-add-command-failed", label, wit(map[string]any{"error": cerr.Error(), "stderr": trunc(stderr.String(), 400)}))
+			continue
+		}
+		var out struct {
+			Address  string `json:"address"`
+			Mnemonic string `json:"mnemonic"`
+		}
+		if err := json.Unmarshal(bytes.TrimSpace(stdout.Bytes()), &out); err != nil {
+			run.Count("cli_keys_add_output_not_json", 1)
+			continue
+		}
+		if out.Address != want {
+			viol(run, "hd-derive-mismatch:keys-add-interactive:"+passKind, label, wit(map[string]any{"printed_address": out.Address, "reference_address": want}))
+			continue
+		}
+		run.Count("cli_keys_add_interactive_ok", 1)
+		run.Count("cli_keys_add_interactive:"+passKind, 1)
+		run.Nontrivial("hd|keys-add-interactive|" + passKind + "|" + map[bool]string{true: "default-path", false: "account-index"}[account == 0 && index == 0])
 	}
 }
 
